@@ -57,6 +57,12 @@ def oracle_finding(run, f):
     return res
 
 # ------------------------------------------------------------------------------------------ C16
+def gen_layers(run):
+    ok = run.generate('layers2v(_collect_scope_layers,_write_scope_layers,layer selection of set_value/remove_value)',
+                      ['-W', 'ignore', os.path.join(VERIF, 'tools', 'layers2v.py'), REPO], 'LayersGen.v')
+    run.dyn_compile(['LayersGen', 'LayersGenProps'])
+    return ok
+
 def gen_cli(run):
     return run.generate('cli2v(cli/main.py:main match arms)', ['-W', 'ignore', os.path.join(VERIF, 'tools', 'cli2v.py'), REPO], 'CliGen.v')
 
@@ -84,8 +90,9 @@ def C17(run):
 EDIT_ASSUME = ['the edit heap model (coq/Edit/EditModel.v) is hand-written: identifier paths without scope selectors, atom values; it is tied to '
                'cli/manipulations.py + expressions/set.py by the in-Coq `edit` correspondence (view after every call, also refused ones)',
                'scope selectors, reference redirection (C11), quoted segments and the byte-level text are covered by the searches (tests), not by the theorems']
-def edit_family(run, search_prop, n_quick=900, n_thorough=6000, corr=True):
+def edit_family(run, search_prop, n_quick=900, n_thorough=6000, corr=True, pre=None):
     run.static()
+    if pre: pre(run)
     run.props()
     big = run.tier == 'thorough'
     if corr:
@@ -97,7 +104,7 @@ def edit_family(run, search_prop, n_quick=900, n_thorough=6000, corr=True):
     run.assumptions += EDIT_ASSUME
 
 def C08(run): edit_family(run, 'C08')
-def C04(run): edit_family(run, 'C04')
+def C04(run): edit_family(run, 'C04', pre=gen_layers)
 def C05(run): edit_family(run, 'C05')
 def C19(run): edit_family(run, 'C19', n_quick=1500, n_thorough=10000)
 
@@ -105,6 +112,7 @@ def C09(run):
     run.static()
     gen_strings(run)
     run.dyn_compile(['Gen', 'ScopeSel'])
+    gen_layers(run)
     run.props()
     big = run.tier == 'thorough'
     run.suite('gen=split_scope', 'fcorr.py', ['split_scope', 8 if big else 7, 300, run.seed], 'FC_split_scope')
